@@ -29,7 +29,7 @@ tab = ("| change | breaks | result of that property's check | failing obligation
        + "\n".join(rows) + "\n")
 c = {}
 for r in rows:
-    k = r.split("|")[3].strip(); c[k] = c.get(k, 0) + 1
+    k = r.split("|")[3].strip().split(" at /verif")[0]; k = k + ")" if k.startswith("superseded") else k; c[k] = c.get(k, 0) + 1
 tab += "\nTotals: " + ", ".join("%s %d" % kv for kv in sorted(c.items())) + " (of %d).\n" % len(rows)
 p = HERE + "/DESIGN.md"
 s = open(p).read()
